@@ -147,8 +147,8 @@ class VHDX(AlignedStream):
                 byte_idx, bit_idx = divmod(sector_in_chunk, 8)
                 # Seek into the bitmap to where we are relative in the cluster
                 self.fh.seek((sector_bitmap_entry.file_offset_mb * MB) + byte_idx)
-                # Read the bitmap for the amount of sectors we're interested in, rounded up
-                sector_bitmap = self.fh.read((read_count + 8 - 1) // 8)
+                # Read the bitmap for the amount of sectors we're interested in (from the first bit), rounded up
+                sector_bitmap = self.fh.read((bit_idx + read_count + 8 - 1) // 8)
 
                 # Calculate runs from the bitmap and read from the correct source
                 relative_sector = 0
@@ -297,13 +297,15 @@ def _iter_partial_runs(bitmap: bytes, start_idx: int, length: int) -> Iterator[t
     current_count = 0
 
     for byte in bitmap:
+        if length <= 0:
+            break
+
         if (current_type, byte) == (0, 0) or (current_type, byte) == (1, 0xFF):
             max_count = min(length, 8 - start_idx)
             current_count += max_count
             length -= max_count
-            start_idx = 0
         else:
-            for bit_idx in range(start_idx, min(length, 8)):
+            for bit_idx in range(start_idx, min(start_idx + length, 8)):
                 sector_type = (byte & (1 << bit_idx)) >> bit_idx
 
                 if sector_type == current_type:
@@ -314,6 +316,9 @@ def _iter_partial_runs(bitmap: bytes, start_idx: int, length: int) -> Iterator[t
                     current_count = 1
 
                 length -= 1
+
+        # Only the first byte starts at a bit offset
+        start_idx = 0
 
     if current_count:
         yield (current_type, current_count)
